@@ -92,11 +92,14 @@ struct Cfg {
     pol: Pol,
     retry_on_reconnect: bool,
     predicate: bool,
+    /// every inner call takes 15 ms before it answers (a connect that hangs before it is
+    /// refused): the delay before a retry counts from the failure, not from the start of the call
+    slow: bool,
 }
 
 impl Cfg {
     fn label(&self) -> String {
-        format!("reconnect max_attempts={:?} policy={:?} retry_on_reconnect={} predicate={}", self.max, self.pol, self.retry_on_reconnect, self.predicate)
+        format!("reconnect max_attempts={:?} policy={:?} retry_on_reconnect={} predicate={}", self.max, self.pol, self.retry_on_reconnect, self.predicate) + if self.slow { " inner-calls-take-15ms" } else { "" }
     }
 }
 
@@ -203,11 +206,12 @@ fn run_one(cfg: &Cfg, prelude: &[u8], script: &[u8], trace: bool) -> (Vec<(Strin
     {
         let mut g = w.inner.lock().unwrap();
         for o in script {
-            g.script.push_back(Plan::now(match o {
+            let out = match o {
                 0 => Out::Ok,
                 1 => Out::Err(0),
                 _ => Out::Err(1),
-            }));
+            };
+            g.script.push_back(if cfg.slow { Plan::after(15, out) } else { Plan::now(out) });
         }
     }
     let first_call = w.inner.lock().unwrap().calls.len();
@@ -224,8 +228,11 @@ fn run_one(cfg: &Cfg, prelude: &[u8], script: &[u8], trace: bool) -> (Vec<(Strin
         if !w.callers[0].is_live() {
             break;
         }
-        // the call is sleeping before a retry: a reconnectable failure is being handled
-        sleeping_states.push((w.now_ms(), state.state()));
+        // no inner call is running: the call is sleeping before a retry, a reconnectable
+        // failure is being handled
+        if w.inner_live() == 0 {
+            sleeping_states.push((w.now_ms(), state.state()));
+        }
         w.tick();
     }
     let g = w.inner.lock().unwrap();
@@ -351,14 +358,20 @@ fn grid(tier: Tier) -> Vec<Cfg> {
                     if tier == Tier::Quick && max == Some(3) && pol == Pol::Jittered {
                         continue;
                     }
-                    v.push(Cfg { max, pol, retry_on_reconnect, predicate });
+                    v.push(Cfg { max, pol, retry_on_reconnect, predicate, slow: false });
                 }
             }
         }
     }
+    // inner calls that take a while before they fail
+    for pol in [Pol::Fixed, Pol::Exponential, Pol::SubMs] {
+        for predicate in [false, true] {
+            v.push(Cfg { max: Some(2), pol, retry_on_reconnect: true, predicate, slow: true });
+        }
+    }
     // one long outage: unlimited attempts, a policy that keeps growing
     for predicate in [false, true] {
-        v.push(Cfg { max: None, pol: Pol::Linear, retry_on_reconnect: true, predicate });
+        v.push(Cfg { max: None, pol: Pol::Linear, retry_on_reconnect: true, predicate, slow: false });
     }
     v
 }
